@@ -262,6 +262,17 @@ func (b *BlockList) readBlocklists() error {
 			return nil
 		}
 		if !f.IsDir() {
+			// A persist() interrupted before its rename leaves its temp
+			// file behind. It is not part of the list: parsing it would
+			// resurrect entries removed since, on every later reload.
+			if strings.HasPrefix(filepath.Base(path), "local.tmp.") {
+				// saveMu: a live persist() owns its temp file for as
+				// long as it holds the lock, so only stale ones go.
+				b.saveMu.Lock()
+				_ = os.Remove(path) //nolint:gosec // G122 - our own temp file in our own directory
+				b.saveMu.Unlock()
+				return nil
+			}
 			file, err := os.Open(path) //nolint:gosec // G304 - path from walk, not user input
 			if err != nil {
 				return fmt.Errorf("error opening file: %w", err)
